@@ -247,7 +247,7 @@ var histPlans = map[string]*histPlan{
 		builds: []string{"default", "purego"}, // the portable multiplication/squaring have their own read/write order
 		required: []string{"oracle/C11diff", "oracle/C11diff/Scalar.MultiplyAdd", "oracle/C11diff/Point.MultiScalarMult", "oracle/C11diff/Point.VarTimeMultiScalarMult",
 			"oracle/C11diff/Element.Select", "oracle/C11diff/Point.SetExtendedCoordinates", "oracle/C11diff/Point.Add", "oracle/C11diff/Element.Swap"},
-		rule: "one evaluation = one run: a seeded history prefix (alias pressure 0.6) followed by the exhaustive enumeration of every exported method x every set partition of {receiver} U {same-typed pointer arguments} (plus multi-scalar shapes: receiver at each index, repeated points/scalars, n=1..4) on operand values drawn from the evolved world; every call is checked by the bit-for-bit frame invariant, every aliased call is re-executed on private copies and compared as values; non-trivial = at least one aliased-vs-distinct comparison; distinct = distinct value-level event-log hash"},
+		rule: "one evaluation = one run: a seeded history prefix (alias pressure 0.6) followed by the exhaustive enumeration of every exported method x every set partition of {receiver} U {same-typed pointer arguments} (plus multi-scalar shapes: receiver at each index, repeated points/scalars, n=1..4) on operand values drawn from the evolved world, under the default and the purego build (a fifth of the runs are field-only worlds); every call is checked by the bit-for-bit frame invariant (the receiver of a read-only method: by value), every aliased call is re-executed on private copies and compared as values; non-trivial = at least one aliased-vs-distinct comparison; distinct = distinct value-level event-log hash"},
 	"C12": {level: "exploration", quickRuns: 100000, thorRuns: 5000000, chunk: 100, quickBudget: 60 * time.Second, thorBudget: 20 * time.Minute,
 		builds: []string{"default"},
 		required: []string{"oracle/C12", "fault/misuse/uninit", "fault/reject/sem/Point.SetExtendedCoordinates", "fault/reject/sem/Point.SetBytes",
@@ -262,11 +262,11 @@ var histPlans = map[string]*histPlan{
 	"C15": {level: "fault_enumeration", quickRuns: 12000, thorRuns: 2000000, chunk: 50, quickBudget: 45 * time.Second, thorBudget: 15 * time.Minute,
 		builds:   []string{"default"},
 		required: []string{"fault/misuse/uninit", "fault/misuse/len", "observed/misuse_panic", "probe/zero_value_receiver"},
-		rule:     "one evaluation = one run: seeded history prefix, then (every second run) the enumeration of a zero-value Point at every Point-typed input position of every operation (every non-empty subset of positions for fixed-arity operations, every index for n=1..5 multi-scalar calls, receiver aliased to the bad operand in 30%), all unequal (len(scalars), len(points)) pairs <= 4, and the converse (zero-value pure receiver with valid inputs must not panic); non-trivial = at least one misuse or zero-receiver call checked; distinct = distinct value-level event-log hash"},
+		rule:     "one evaluation = one run: seeded history prefix, then (every second run) the enumeration of a zero-value Point at every Point-typed input position of every operation (every non-empty subset of positions for fixed-arity operations, every index for n=1..5 multi-scalar calls, receiver aliased to the bad operand in 30%), all unequal (len(scalars), len(points)) pairs <= 4, mismatches of +-1, +2, -n/2 on lists of 16-1025 terms, and the converse (zero-value pure receiver with valid inputs must not panic); non-trivial = at least one misuse or zero-receiver call checked; distinct = distinct value-level event-log hash"},
 	"C19": {level: "exploration", quickRuns: 36000, thorRuns: 1500000, chunk: 100, quickBudget: 60 * time.Second, thorBudget: 20 * time.Minute,
 		builds: []string{"default"}, instrumented: true,
 		required: []string{"fault/scribble/bytes", "fault/scribble/coords", "fault/scribble/ctor", "oracle/C19/probe", "oracle/C19/anchors", "oracle/C19/pkgstate"},
-		rule:     "one evaluation = one seeded history in which every value handed back by the library (Bytes results, exported coordinates, constructor results) is kept in a ledger and later overwritten (raw memory and public mutators) at arbitrary points, and earlier calls are re-issued on bit-copies of their recorded operands; checked: caller slots, other returned values and every package-level variable of the library bit-identical across each mutation, returned values never overlap each other / caller slots, re-issued calls give identical values, constructors keep returning identity/base/zero; non-trivial = at least one ledger/mutation/probe check; distinct = distinct value-level event-log hash"},
+		rule:     "one evaluation = one seeded history in which every value handed back by the library (Bytes results, exported coordinates, constructor results) is kept in a ledger and later overwritten (raw memory and public mutators) at arbitrary points, and earlier calls are re-issued on bit-copies of their recorded operands; checked: caller slots, other returned values and every package-level variable of the library bit-identical across each mutation, returned values never overlap each other / caller slots, re-issued calls give identical values (half of them with a write-only receiver started from another state), constructors keep returning identity/base/zero; fault kinds also injected: forced garbage collections (pool eviction) and floods (one operation on 300-9000 distinct inputs, then the same inputs again); non-trivial = at least one ledger/mutation/probe check; distinct = distinct value-level event-log hash"},
 }
 
 type workerOut struct {
